@@ -6,10 +6,12 @@ pub mod e2e;
 pub mod pgen;
 pub mod refmodel;
 pub mod gsom;
+pub mod interrupt;
 pub mod model;
 pub mod numerics;
 pub mod algos;
 pub mod order;
+pub mod parallel;
 pub mod population;
 pub mod roundtrip;
 pub mod routing;
@@ -26,8 +28,10 @@ pub fn property(id: &str, tier: Tier) -> Option<PropertyDef> {
         "C12" => Some(checker::property(tier)),
         "C13" => Some(scientific::property(tier)),
         "C14" => Some(model::property(tier)),
+        "C07" => Some(interrupt::property(tier)),
         "C08" => Some(population::property(tier)),
         "C09" => Some(order::property(tier)),
+        "C15" => Some(parallel::property(tier)),
         "C16" => Some(routing::property(tier)),
         "C17" => Some(algos::property(tier)),
         "C18" => Some(numerics::property(tier)),
